@@ -73,6 +73,11 @@ def cases(tier):
     for m in EK.big_models(False, tier):
         for route in ('cls', 'proc', 'cfg', 'potable'):
             out.append(dict(m=m, route=route, spelling='setfl'))
+    for m in EK.api_option_models(False):
+        if 'title' in m:
+            continue
+        for route in (('proc',) if 'comments' in m else ('cls', 'proc')):
+            out.append(dict(m=m, route=route, spelling='setfl'))
     # labels (anagrams, 8 characters, element lines of different lengths) and pair potentials of species without EAM functions
     for i, m in enumerate(EK.label_models(False, tier)):
         for route in (('cls', 'proc', 'cfg', 'potable') if tier != 'quick' else (('cls', 'proc')[i % 2], ('cfg', 'potable')[(i // 2) % 2])):
